@@ -11,7 +11,7 @@ from sim.core import Discard, Violation
 
 ID = "C05"
 LEVEL = "exploration"
-TIERS = {"quick": {"runs": 25000, "budget_s": 70, "chunk": 200, "min_runs": 1000},
+TIERS = {"quick": {"runs": 40000, "budget_s": 75, "chunk": 200, "min_runs": 1000},
          "thorough": {"runs": 4000000, "budget_s": 1200, "chunk": 500, "min_runs": 20000}}
 RULE = ("case = seeded (1-2 cstruct objects with random initial endianness in {<,>,!}; flat packed structures of 3-9 scalar "
         "fields loaded BEFORE the history, each as a compiled and an interpreted twin; history of 10-40 ops: set_endian, "
